@@ -16,7 +16,6 @@ Offsets: _uscan works on a Py_UCS4 copy of the text, so start/len are code point
 indices); the abstraction has one class per code point.
 """
 import json
-import multiprocessing
 import os
 import re
 from concurrent.futures import ThreadPoolExecutor
@@ -127,12 +126,7 @@ def scan_all(ctx, seqs, tag):
     outdir = os.path.join(ctx.scratch, "traces-" + tag)
     os.makedirs(outdir, exist_ok=True)
     jobs = [(i, ch, outdir) for i, ch in enumerate(chunks(seqs, ctx.ncpu * 2)) if ch]
-    pool = multiprocessing.get_context("fork").Pool(ctx.ncpu)
-    try:
-        res = pool.map(_scan_worker, jobs)
-    finally:
-        pool.close()
-        pool.join()
+    res = list(W.pmap(ctx, _scan_worker, jobs))
     files = [f for r in res for f in r[0]]
     distinct = set()
     for r in res:
